@@ -160,7 +160,16 @@ class AtModel(object):
         self.set_actions(actions)
 
     def set_actions(self, actions):
-        self.actions = [(a["command"], a.get("parameterPattern"), a["action"]) for a in actions]
+        """All or nothing, like the plugin's settings handler: an entry that cannot be constructed (no command,
+        unknown action, a pattern that is not a regular expression) makes the whole update fail."""
+        new = []
+        for a in actions:
+            if not a.get("command") or a.get("action") not in ("enable_exclusion", "disable_exclusion"):
+                raise ValueError("unconstructible @-action %r" % (a,))
+            if a.get("parameterPattern") is not None:
+                re.compile(a["parameterPattern"])
+            new.append((a["command"], a.get("parameterPattern"), a["action"]))
+        self.actions = new
 
     def match(self, command, parameters):
         hits = []
